@@ -53,7 +53,7 @@ def generate(r, tier):
     sc["hand"] = [kgen.handwritten(r, prog) for _ in range(r.randint(0, 2))]
     sc["tool_prefix"] = [ops.gen_history(r, prog, r.randint(0, 6), weights={"read": 0, "save": 0, "load": 0, "restart": 0, "load_hand": 0}, sane=0.9)
                          for _ in range(r.randint(0, 2))]
-    sc["initial"] = r.choice(["empty", "tool", "tool", "hand"])
+    sc["initial"] = r.choice(["empty", "tool", "tool", "hand", "tool+hand"])
     # under policy kconfig (stale stored defaults are ignored and reported, nothing is pinned) also a file of another tree version
     sc["prog_alt"] = kgen.evolve(r, prog) if r.random() < (0.5 if sc["policy"] == "kconfig" else 0.3) else None
     if sc["prog_alt"] and r.random() < 0.4:
@@ -124,6 +124,13 @@ def prepare(sc, sb):
         if src and os.path.exists(src):
             with builtins.open(src, "rb") as f:
                 g.write(f.read())
+        if init == "tool+hand" and sc.get("tool_prefix") and sc.get("hand"):
+            # a tool-written file with hand-appended overrides (`echo CONFIG_X=9 >> sdkconfig`)
+            for part in ("tool_0", "hand_0"):
+                pth = os.path.join(sb, part)
+                if os.path.exists(pth):
+                    with builtins.open(pth, "rb") as f:
+                        g.write(f.read())
     return kpath, rn, sdk
 
 
